@@ -164,10 +164,29 @@ func c03HistString(h []uint32) string {
 }
 
 // c03Run feeds a history to check (returns nil on accept) and compares with the model.
-func c03Run(c *core.Case, level string, hist []uint32, check func(s uint32) error) {
+func c03Run(c *core.Case, level string, hist []uint32, check func(s uint32) error, forge ...func(s uint32) error) {
 	mo := newC03Model()
 	c.Note("%s history: %s", level, c03HistString(hist))
+	maxNum := uint32(0)
+	for _, s := range hist {
+		maxNum = max(maxNum, s)
+	}
+	forged := 0
 	for i, s := range hist {
+		// Between deliveries an attacker may present damaged copies of any frame
+		// the sender produced (also of frames not delivered yet): they are
+		// rejected and leave the window as it was, so that the verdicts below stay
+		// those of the reference model.
+		if len(forge) > 0 && c.Mode() != "dfs" && c.Chance("forge", 1, 6) {
+			f := s
+			if c.Bool("forge.other") {
+				f = uint32(c.Uniform("forge.num", 1, int(maxNum)))
+			}
+			if err := forge[0](f); err == nil {
+				c.Fatalf("%s: a damaged copy of frame %d unsealed (history %s)", level, f, c03HistString(hist[:i]))
+			}
+			forged++
+		}
 		v := mo.verdict(s)
 		err := check(s)
 		switch {
@@ -190,6 +209,23 @@ func c03Run(c *core.Case, level string, hist []uint32, check func(s uint32) erro
 	if mo.edge {
 		c.Class(level + "/window-edge-60..68")
 	}
+	if forged > 0 {
+		c.Class(level + "/with-damaged-copies")
+	}
+}
+
+// c03Damage returns a copy of a sealed frame with one bit flipped in the
+// sequence field, the nonce or the protected body (positions given by the caller).
+func c03Damage(c *core.Case, data []byte, seqAt, seqLen, bodyFrom int) []byte {
+	cp := append([]byte(nil), data...)
+	var i int
+	if c.Bool("forge.seq") {
+		i = seqAt + c.Uniform("forge.seq.byte", 0, seqLen-1)
+	} else {
+		i = c.Uniform("forge.body.byte", bodyFrom, len(cp)-1)
+	}
+	cp[i] ^= 1 << c.Uniform("forge.bit", 0, 7)
+	return cp
 }
 
 func TestC03Handler(t *testing.T) {
@@ -302,6 +338,9 @@ func c03FrameLevel(c *core.Case, hist []uint32, mt frame.MessageType, level stri
 	recv, frames, b := c03Frames(c, mt, int(maxNum))
 	c03Run(c, level, hist, func(s uint32) error {
 		return c03UnsealCopy(b, frames[s-1], recv)
+	}, func(s uint32) error {
+		// sequence number: bytes 8..11 of the frame header; body from the message on
+		return c03UnsealCopy(b, c03Damage(c, frames[s-1], 8, 4, 51), recv)
 	})
 }
 
@@ -325,6 +364,18 @@ func TestC03Frames(t *testing.T) {
 			var hist []string
 			nt := false
 			for i := 0; i < steps; i++ {
+				if c.Chance("signed.rekey", 1, 8) {
+					// The session gets new end-to-end keys in between (a completed key
+					// setup, or keys dropped after a "no keys" error): the order of signed
+					// frames is a matter of the session, not of its encryption keys.
+					if c.Bool("signed.rekey.drop") {
+						recv.SetEncryptionSession(nil)
+					} else if _, eb, err := vnet.EncPair(); err == nil {
+						recv.SetEncryptionSession(eb)
+					}
+					hist = append(hist, "rekey")
+					c.Class("frame-signed/session-rekeyed-in-between")
+				}
 				k := c.Pick("signed.k", n)
 				err := c03UnsealCopy(b, frames[k], recv)
 				hist = append(hist, fmt.Sprint(k))
@@ -392,6 +443,9 @@ func TestC03LinkFrames(t *testing.T) {
 		c03Run(c, "link-frame", hist, func(s uint32) error {
 			cp := append([]byte(nil), frames[s-1]...)
 			return peering.LinkFrame(cp).Unseal(eb)
+		}, func(s uint32) error {
+			// link frame header: length (2), version/flags (2), sequence number (4), nonce rest
+			return peering.LinkFrame(c03Damage(c, frames[s-1], 4, 4, peering.FrameOffset)).Unseal(eb)
 		})
 	})
 }
